@@ -12,7 +12,7 @@ NAMES = ("p0", "p1")
 class DSim:
     def __init__(self, expected=(None, None), can_dilate=(("ged",), ("ged",)), half=False, app=True, max_links=4,
                  listen_late=False, stoppable=False, ping_interval=30.0, both_write=False, sides=("aa" * 8, "bb" * 8), peer_inert=False, throttle=False, no_listen=(False, False), silent_after_connect=False, lose_any=False, big_write=False, lazy_tcp=False):
-        self.w = DWorld(sides=sides, expected=expected, can_dilate=can_dilate, ping_interval=ping_interval, no_listen=no_listen)
+        self.w = self.make_world(sides=sides, expected=expected, can_dilate=can_dilate, ping_interval=ping_interval, no_listen=no_listen)
         self.w.__enter__()
         self.w.inert = peer_inert
         self.w.net.throttle = throttle
@@ -48,11 +48,19 @@ class DSim:
         self.lost_count = 0
         self.parts = 0
 
+    def make_world(self, **kw):
+        return DWorld(**kw)
+
+    # kinds of environment steps an honest canonical run takes, in order of preference (harness/fullstack.py has its own)
+    NET = ("start", "msg", "tcp", "data", "turn")
+    NET_LAZY = ("start", "msg", "data", "turn", "tcp")
+
     def close(self):
         self.w.__exit__(None, None, None)
 
     # ------------------------------------------------------------------ actions
-    def enabled(self):
+    def control_actions(self):
+        """dilation start, delivery of mailbox-carried control messages, stop"""
         w = self.w
         acts = []
         for i in (0, 1):
@@ -66,6 +74,11 @@ class DSim:
                 acts.append(("msg", X))
             if self.stoppable and self.started[i] and not self.stopped_req[i]:
                 acts.append(("stop", X))
+        return acts
+
+    def enabled(self):
+        w = self.w
+        acts = self.control_actions()
         live_pending = [c for c in w.net.pending if not c["cancelled"]]
         live_links = [(a, b) for (a, b) in w.net.links if not a.lost and not a.closed and not b.closed]
         for k in range(min(len(w.net.pending), 3)):
@@ -286,9 +299,7 @@ class DSim:
                     return
                 self.do(pick)
                 out.append(pick)
-        net = ["start", "msg", "tcp", "data", "turn"]
-        if self.lazy_tcp:
-            net = ["start", "msg", "data", "turn", "tcp"]
+        net = list(self.NET_LAZY if self.lazy_tcp else self.NET)
         if self.throttle:
             return self.canonical_throttled(run, out, net)
         run(net)
@@ -364,9 +375,11 @@ DSim.canonical_throttled = _canonical_throttled
 _canon = {}
 
 
-def canonical(cfgname, configs):
-    if cfgname not in _canon:
-        sim = DSim(**configs[cfgname])
+def canonical(cfgname, configs, simcls=None):
+    simcls = simcls or DSim
+    ckey = (simcls.__name__, cfgname)
+    if ckey not in _canon:
+        sim = simcls(**configs[cfgname])
         try:
             tr = sim.canonical()
             # vacuity guard: an honest run must converge (and, with an application, deliver something)
@@ -377,10 +390,10 @@ def canonical(cfgname, configs):
                 exp = sim.w._args[1][1]
                 if sim.app and (exp is None or "p0" in exp) and not any(e[1] == "data" for e in sim.w.sides[1].applog):
                     CANON_STALLED.setdefault(cfgname, "canonical dilation run of config %r delivered no subchannel data" % (cfgname,))
-            _canon[cfgname] = tr
+            _canon[ckey] = tr
         finally:
             sim.close()
-    return _canon[cfgname]
+    return _canon[ckey]
 
 
 def replay_actions(sim, actions):
@@ -407,10 +420,12 @@ class DExplore(Job):
                "reactor = in-memory Clock with listenTCP/connectTCP recorded (env/dilation.py)"]
     configs = {}
     allowed = None
+    simcls = DSim
+    prefix = "dexplore"
 
     def __init__(self, cfg, plo, phi, k):
         self.cfg, self.plo, self.phi, self.k = cfg, plo, phi, k
-        self.name = "dexplore_%s_p%d-%d_k%d" % (cfg, plo, phi, k)
+        self.name = "%s_%s_p%d-%d_k%d" % (self.prefix, cfg, plo, phi, k)
         self.bounds = dict(config=cfg, config_args={k2: repr(v) for k2, v in self.configs[cfg].items()},
                            canonical_prefix_lengths="%d..%d" % (plo, phi - 1), free_steps=k,
                            free_step_kinds="all enabled" if self.allowed is None else sorted(self.allowed),
@@ -461,12 +476,12 @@ class DExplore(Job):
         return did
 
     def scenario(self):
-        canon = canonical(self.cfg, self.configs)
+        canon = canonical(self.cfg, self.configs, self.simcls)
         span = [p for p in range(self.plo, self.phi) if p <= len(canon)]
         if not span:
             raise core._Abort()
         p = span[eng().choose(len(span), "prefix")]
-        sim = DSim(**self.configs[self.cfg])
+        sim = self.simcls(**self.configs[self.cfg])
         sched = []
         eng().inputs["prefix"] = p
         eng().inputs["sched"] = sched
@@ -495,8 +510,8 @@ class DExplore(Job):
             sim.close()
 
     def replay(self, inp, label):
-        canon = canonical(self.cfg, self.configs)
-        sim = DSim(**self.configs[self.cfg])
+        canon = canonical(self.cfg, self.configs, self.simcls)
+        sim = self.simcls(**self.configs[self.cfg])
         try:
             if not replay_actions(sim, canon[:inp["prefix"]]):
                 return None
@@ -530,7 +545,7 @@ def make_jobs(cls, tier, kq, kt, stepq=6, stept=3):
     k = kt if thorough else kq
     J = []
     for cfg in cls.configs:
-        n = len(canonical(cfg, cls.configs))
+        n = len(canonical(cfg, cls.configs, cls.simcls))
         step = stept if thorough else stepq
         for lo in range(0, n + 1, step):
             J.append(cls(cfg, lo, min(lo + step, n + 1), k))
@@ -563,7 +578,7 @@ class DRandomPrefixMixin:
     def scenario(self):
         seeds = list(self.batch)
         seed = seeds[eng().choose(len(seeds), "seed")]
-        sim = DSim(**self.configs[self.cfg])
+        sim = self.simcls(**self.configs[self.cfg])
         sched = []
         eng().inputs["rseed"] = seed
         eng().inputs["sched"] = sched
@@ -589,7 +604,7 @@ class DRandomPrefixMixin:
             sim.close()
 
     def replay(self, inp, label):
-        sim = DSim(**self.configs[self.cfg])
+        sim = self.simcls(**self.configs[self.cfg])
         try:
             pre = self.gen_prefix(sim, inp["rseed"])
             fails = self.violations(sim, "prefix")
